@@ -217,16 +217,37 @@ fn shutdown_case(ctx: &mut Ctx, index: u64, rng: &mut Rng) {
         ctx.finding(index, "handlers-did-not-start", "-", "-", json!({"started": started, "expected": nh, "log": gates.lock().unwrap().log.clone()}));
         return;
     }
-    // shut down with the handlers in flight
+    // shut down with the handlers in flight: 1..3 handles wait in graceful_shutdown() at the same time, and sometimes one
+    // more plain handle stays alive for a while
+    let nwaiters = 1 + rng.usize_below(3);
+    let mut extra: Option<Connection> = if rng.chance(1, 3) { Some(conn.clone()) } else { None };
+    let had_extra = extra.is_some();
+    let finished = Arc::new(Mutex::new(0usize));
     let done = Arc::new(Mutex::new(false));
-    let d2 = done.clone();
-    let t = sched.spawn("graceful-shutdown", async move {
-        conn.graceful_shutdown().await;
-        *d2.lock().unwrap() = true;
-    });
+    let mut t = 0;
+    let mut waiter_tasks = Vec::new();
+    let mut conn = Some(conn);
+    for w in 0..nwaiters {
+        let c = if w + 1 == nwaiters { conn.take().unwrap() } else { conn.as_ref().unwrap().clone() };
+        let (d2, f2) = (done.clone(), finished.clone());
+        t = sched.spawn("graceful-shutdown", async move {
+            c.graceful_shutdown().await;
+            let mut f = f2.lock().unwrap();
+            *f += 1;
+            if *f == nwaiters {
+                *d2.lock().unwrap() = true;
+            }
+        });
+        waiter_tasks.push(t);
+    }
+    ctx.count(&format!("class:shutdown-waiters-{nwaiters}"), 1);
     sched.run_to_quiescence();
+    if *finished.lock().unwrap() > 0 {
+        ctx.finding(index, "graceful-shutdown-completed-with-handlers-in-flight", "-", "-", json!({"handlers": nh, "waiters": nwaiters, "finished": *finished.lock().unwrap()}));
+        return;
+    }
     let desc0 = json!({"handlers": nh, "log": gates.lock().unwrap().log.clone(), "trace": sched.trace_string()});
-    if *done.lock().unwrap() {
+    if *finished.lock().unwrap() > 0 {
         ctx.finding(index, "graceful-shutdown-completed-with-handlers-in-flight", "-", "-", desc0.clone());
         return;
     }
@@ -240,17 +261,28 @@ fn shutdown_case(ctx: &mut Ctx, index: u64, rng: &mut Rng) {
     for (k, id) in order.iter().enumerate() {
         open_gate(&gates, *id);
         sched.run_to_quiescence();
-        let finished = *done.lock().unwrap();
-        if finished && k + 1 < order.len() {
+        let finished_now = *finished.lock().unwrap() > 0;
+        if finished_now && k + 1 < order.len() {
             ctx.finding(index, "graceful-shutdown-completed-with-handlers-in-flight", "some-gates-still-closed", "-", json!({"opened": k + 1, "handlers": nh}));
             return;
         }
     }
+    if extra.is_some() {
+        // every handler has finished, but another handle is still alive: the shutdown must keep waiting
+        ctx.count("class:shutdown-with-another-handle-alive", 1);
+        if *finished.lock().unwrap() > 0 || wire.peer_sees_eof() {
+            ctx.finding(index, "graceful-shutdown-completed-with-a-handle-alive", "-", "-", json!({"handlers": nh, "waiters": nwaiters, "finished": *finished.lock().unwrap(), "peer_sees_eof": wire.peer_sees_eof()}));
+            return;
+        }
+        drop(extra.take());
+        sched.run_to_quiescence();
+    }
     let replies = peer.pump();
-    ctx.distinct(sched.fingerprint() ^ nh as u64);
-    let desc = json!({"handlers": nh, "log": gates.lock().unwrap().log.clone(), "replies": replies.len(), "peer_sees_eof": wire.peer_sees_eof(), "trace": sched.trace_string()});
-    if !*done.lock().unwrap() || !sched.is_done(t) {
-        ctx.finding(index, "graceful-shutdown-never-completes", "-", "-", desc.clone());
+    ctx.distinct(sched.fingerprint() ^ nh as u64 ^ (nwaiters as u64) << 8);
+    let desc = json!({"handlers": nh, "waiters": nwaiters, "waiters_finished": *finished.lock().unwrap(), "extra_handle": had_extra, "log": gates.lock().unwrap().log.clone(), "replies": replies.len(), "peer_sees_eof": wire.peer_sees_eof(), "trace": sched.trace_string()});
+    if !*done.lock().unwrap() || waiter_tasks.iter().any(|t| !sched.is_done(*t)) {
+        let reason = if *finished.lock().unwrap() == 0 { "no-waiter-completed" } else { "some-waiters-never-completed" };
+        ctx.finding(index, "graceful-shutdown-never-completes", reason, &format!("waiters-{nwaiters}"), desc.clone());
     }
     for (id, s) in &serials {
         let r: Vec<_> = replies.iter().filter(|r| r.msg.reply_serial() == Some(*s)).collect();
@@ -262,7 +294,7 @@ fn shutdown_case(ctx: &mut Ctx, index: u64, rng: &mut Rng) {
     if !wire.peer_sees_eof() {
         ctx.finding(index, "transport-not-closed-after-graceful-shutdown", "-", "-", desc);
     }
-    ctx.sample(json!({"class": "graceful-shutdown", "handlers": nh, "gate_open_order": order, "handler_log": gates.lock().unwrap().log.clone(), "replies_on_wire": replies.len(), "peer_sees_eof": wire.peer_sees_eof(), "schedule": sched.trace_string().chars().take(160).collect::<String>()}));
+    ctx.sample(json!({"class": "graceful-shutdown", "handlers": nh, "waiters": nwaiters, "extra_handle": had_extra, "gate_open_order": order, "handler_log": gates.lock().unwrap().log.clone(), "replies_on_wire": replies.len(), "peer_sees_eof": wire.peer_sees_eof(), "schedule": sched.trace_string().chars().take(160).collect::<String>()}));
 }
 
 pub fn run(ctx: &mut Ctx) {
